@@ -5,7 +5,7 @@
 cd /verif
 names=("$@"); [ ${#names[@]} -eq 0 ] && names=($(ls seeded | grep -v README))
 for n in "${names[@]}"; do
-  d=seeded/$n; prop=$(python3 -c "import json;print(json.load(open('$d/meta.json'))['property'])")
+  d=seeded/$n; prop=$(python3 -c "import json;m=json.load(open('$d/meta.json'));print(m.get('check',m['property']))")
   wt=/tmp/seedreg_$n
   git -C /repo worktree add -q --detach $wt HEAD 2>/dev/null || { echo "$n NOWORKTREE"; continue; }
   if ! git -C $wt apply $PWD/$d/patch.diff 2>/dev/null && ! git -C $wt apply -3 $PWD/$d/patch.diff 2>/dev/null; then
